@@ -80,7 +80,7 @@ RULE_C = ("cases = simulated runs of Engine C: one seeded script (an Engine-A hi
 
 # property -> list of (engine name, weight): run r uses the engine whose slot contains r mod sum(weights)
 MIX = {
-    'C01': [('A', 6), ('B', 1)], 'C02': [('A', 1)], 'C10': [('A', 1)], 'C11': [('A', 1)],
+    'C01': [('A', 6), ('B', 1)], 'C02': [('A', 6), ('B', 1)], 'C10': [('A', 1)], 'C11': [('A', 1)],
     'C03': [('A', 7), ('B', 1)],
     'C07': [('A', 4), ('B', 1)],
     'C17': [('A', 2), ('B', 1)],
